@@ -82,8 +82,43 @@ let run_rtarget seed target allow steps calls : string =
    with Exit -> ());
   String.concat "," (Stdlib.List.rev !out)
 
+(* urw <seed> <iters> <tasks id:parent|-:loc:sig:psig,...> <calls E | U | T:<id.id.id>> *)
+let run_urw seed iters tasks calls : string =
+  let tab = Hashtbl.create 16 in
+  Stdlib.List.iter (fun w ->
+    match String.split_on_char ':' w with
+    | [id; par; _loc; sg; psg] ->
+      Hashtbl.replace tab (int_of_string id)
+        { Urw.ut_id = nat_of_int (int_of_string id);
+          ut_parent = (if par = "-" then None else Some (nat_of_int (int_of_string par)));
+          ut_sig = n_of_string sg; ut_psig = n_of_string psg }
+    | _ -> failwith "urw: bad task") (String.split_on_char ',' tasks);
+  let u = ref (Urw.urw_new_from_seed (n_of_string seed) (n_of_string iters)) in
+  let out = ref [] in
+  (try
+     Stdlib.List.iter (fun c ->
+       if c = "E" then begin
+         match Urw.urw_new_execution !u with
+         | None -> out := "eN" :: !out; raise Exit
+         | Some None -> out := "P" :: !out; raise Exit
+         | Some (Some (s, u')) -> u := u'; out := ("e" ^ string_of_n s) :: !out
+       end else if c = "U" then begin
+         let (x, u') = Urw.urw_next_u64 !u in u := u'; out := ("u" ^ string_of_n x) :: !out
+       end else begin
+         let ids = Stdlib.List.map int_of_string (String.split_on_char '.' (String.sub c 2 (String.length c - 2))) in
+         let ts = Stdlib.List.map (fun i -> Hashtbl.find tab i) ids in
+         match Urw.urw_next_task (nat_of_int 10000) !u ts with
+         | Random.Done (t, u') -> u := u'; out := ("t" ^ string_of_int (int_of_nat t)) :: !out
+         | Random.Panic -> out := "P" :: !out; raise Exit
+         | Random.OutOfFuel -> out := "FUEL" :: !out; raise Exit
+         | Random.NotModelled -> out := "NM" :: !out; raise Exit
+       end) (String.split_on_char ',' calls)
+   with Exit -> ());
+  String.concat "," (Stdlib.List.rev !out)
+
 let run (ws : string list) : string =
   match ws with
+  | ["urw"; seed; iters; tasks; calls] -> run_urw seed iters tasks calls
   | ["rtarget"; seed; target; allow; steps; calls] -> run_rtarget seed target allow steps calls
   | ["dfs"; mi; bound; tree] ->
     (match Dfs.dfs_outcome (nat_of_int 200000) (opt_nat mi) (opt_nat bound) (parse_tree tree) with
